@@ -223,11 +223,12 @@ Proof. exact pipeline_stop_bounded_lemma. Qed.
 Print Assumptions C18_pipeline_stop_bounded.
 
 (* The VARIANT in which Accept waits on a full queue for room or for the buffer's stop signal (not the code of the
-   repository; seeded to test this check): a reachable state with the worker inside Accept, the queue full, the signal
+   repository; seeded to test this check), for EVERY capacity and every number of chunks above it: a reachable state
+   (after capacity + 1 Accept calls) with the worker inside Accept, the queue full, the signal
    not raised, and NO step of the shutdown path enabled - the signal is raised by Destroy, Destroy runs after the
    worker has ended, the worker is the waiter: a cycle in the wait-for relation. *)
 Theorem C18_blocking_accept_variant_refuted :
-  exists cap p evs s,
+  forall cap p, (cap < p)%nat -> exists evs s,
     q_run (QCFG cap true) (q_init p) evs = Some s /\ q_pc s <> WDestroyed /\ q_closed s = false /\
     q_len s = cap /\
     (forall e, q_own e = true -> q_step (QCFG cap true) s e = None).
